@@ -25,6 +25,9 @@ SQD(q, dl) == [queued |-> q, dl |-> dl, clock |-> 0, entry |-> TRUE, retr |-> 0,
        got |-> FALSE,               \* a response sits in the call's one-slot channel
        acked |-> FALSE, rst |-> FALSE, cancelled |-> FALSE, exhausted |-> FALSE]
 SQ(q) == SQD(q, 0)
+\* the first transmission is refused by the network (a transient write error while context and connection stay alive):
+\* nothing is stored, nothing went out, the call returns the error - Tick leaves such a state alone for ever
+SWF == [SQD(0, 0) EXCEPT !.entry = FALSE, !.copies = <<>>, !.pc = "err"]
 S0 == SQ(0)
 
 Waiting(s) == s.pc \in {"waitAck", "waitResp"}
